@@ -17,6 +17,10 @@ _init_cache = {}
 
 
 def fresh(mod, init_name):
+    if getattr(mod, "FRESH_FROM_SCRATCH", False):
+        # built anew every time: a deep copy of a cached module is a COPY (C18 is about whether copies are faithful; e.g. index arrays
+        # that are read-only in a freshly built module are writeable, and still shared, in its copies)
+        return mod.INITS[init_name]()
     key = (mod.ID, init_name)
     if key not in _init_cache:
         _init_cache[key] = mod.INITS[init_name]()
